@@ -25,6 +25,8 @@ func main() {
 	sweep := flag.String("sweep", "", "zero-annotation safety sweep over functions matching substring")
 	replay := flag.String("replay", "", "re-run a stored replay file")
 	outDir := flag.String("outdir", "", "directory for evidence/ and replays/ (default: the verif directory)")
+	fileFilter := flag.String("file", "", "with -all: only functions declared in these source files (comma list of base names, or dir/ for a package directory)")
+	failFast := flag.Bool("failfast", false, "with -all: stop at the first failed obligation")
 	witness := flag.String("witness", "", "run only the witness-search driver of a property against the real code (no proof)")
 	flag.Parse()
 	if *witness != "" {
@@ -74,6 +76,9 @@ func main() {
 	dir, _ := os.MkdirTemp("", "govc")
 	defer os.RemoveAll(dir)
 	cfg := SolverCfg{Workers: 16, FirstSecs: 3, RaceSecs: 20, Dir: dir, KeepFiles: *keep}
+	if v := os.Getenv("GOVC_RACE_SECS"); v != "" {
+		fmt.Sscanf(v, "%d", &cfg.RaceSecs)
+	}
 	if *tier == "thorough" {
 		cfg.FirstSecs, cfg.RaceSecs = 5, 60
 	}
@@ -104,9 +109,27 @@ func main() {
 		}
 	case *all:
 		for k, c := range p.cs.Funcs {
-			if c.Kind == "func" {
-				targets = append(targets, k)
+			if c.Kind != "func" {
+				continue
 			}
+			if *fileFilter != "" {
+				fn := p.funcs[k]
+				if fn == nil {
+					continue
+				}
+				base := filepath.Base(p.prog.Fset.Position(fn.Pos()).Filename)
+				dir := filepath.Base(filepath.Dir(p.prog.Fset.Position(fn.Pos()).Filename))
+				hit := false
+				for _, f := range strings.Split(*fileFilter, ",") {
+					if f == base || f == dir+"/" {
+						hit = true
+					}
+				}
+				if !hit {
+					continue
+				}
+			}
+			targets = append(targets, k)
 		}
 	case *sweep != "":
 		for k := range p.funcs {
@@ -146,6 +169,10 @@ func main() {
 		for _, s := range vc.specErrors {
 			fmt.Println("   SPEC ERROR:", s)
 			bad++
+			if *failFast {
+				os.RemoveAll(dir)
+				os.Exit(1)
+			}
 		}
 		for _, s := range vc.outside {
 			fmt.Println("   outside subset:", s)
@@ -159,6 +186,11 @@ func main() {
 			}
 			if o.Status != "unsat" {
 				bad++
+				if *failFast {
+					fmt.Printf("   FAIL %s [%s] %s\n", o.Name, o.Status, o.Desc)
+					os.RemoveAll(dir)
+					os.Exit(1)
+				}
 				fmt.Printf("   FAIL %s [%s %s %.2fs] %s (%s:%d)\n", o.Name, o.Solver, o.Status, o.Secs, o.Desc, o.Pos.Filename, o.Pos.Line)
 				if *verbose {
 					fmt.Println("      " + strings.ReplaceAll(o.Output, "\n", "\n      "))
